@@ -87,6 +87,11 @@ static int R, Y, W;
 
 static void complete_routing(int rounds)
 {
+	if (xp_param("silent_owner", 0)) {
+		/* the owners never answer: every routed request is completed by its deadline on the virtual clock */
+		jx_expire_all_timers(8);
+		return;
+	}
 	for (int i = 0; i < rounds; i++) {
 		int n = jx_reply_routed(Y, "\"result\":\"ok\"");
 		n += jx_reply_routed(R, "\"result\":\"ok\"");
